@@ -268,11 +268,11 @@ static u64 rndw(int w)   // random w-bit pattern with a random magnitude (unifor
 static std::vector<u64> multiples16(bool sgn, bool thorough)
 {
 	std::set<u64> s; u64 mx = sgn ? 0x7fff : 0xffff;
-	for (u64 m = 1; m <= (thorough ? 1024u : 32u); ++m) s.insert(m);
-	for (int k = 5; k < 16; ++k) for (int d = -1; d <= 1; ++d) { u64 m = (1ull << k) + d; if (m >= 1 && m <= mx) s.insert(m); }
+	for (u64 m = 1; m <= (thorough ? 1024u : 16u); ++m) s.insert(m);
+	for (int k = 5; k < 16; ++k) for (int d = -1; d <= 1; ++d) { if (!thorough && d != 0 && k != 5 && k != 8 && k != 11 && k < 14) continue; u64 m = (1ull << k) + d; if (m >= 1 && m <= mx) s.insert(m); }
 	static const u64 X[] = { 100, 255, 256, 257, 1000, 10000 }; for (u64 m : X) s.insert(m);
 	s.insert(mx); s.insert(mx - 1); s.insert(mx / 2); s.insert(mx / 2 + 1); s.insert(mx / 3);
-	for (int i = 0; i < (thorough ? 256 : 8); ++i) s.insert(1 + rnd() % mx);
+	for (int i = 0; i < (thorough ? 256 : 6); ++i) s.insert(1 + rnd() % mx);
 	return std::vector<u64>(s.begin(), s.end());
 }
 static std::vector<u64> his(bool thorough, int nquick)   // the high halves of the packed 32-bit operands that are swept
@@ -290,7 +290,7 @@ static u64 f64bits(double f) { u64 b; memcpy(&b, &f, 8); return b; }
 static void plan(bool thorough, u64 sd)
 {
 	seed(sd);
-	const int NR = thorough ? 30000 : 1500;
+	const int NR = thorough ? 30000 : 700;
 	static const int U1[] = { ISPOW2, CEILPOW2, NEXTPOW2, HBV, LBV, LOG2 };
 	static const int U1P[] = { FLOORPOW2, PREVPOW2, ROUNDPOW2, ABOVE, BELOW, NEAREST };     // signed: x >= 0 only
 	static const int V1[] = { V_ISPOW2, V_CEILPOW2, V_NEXTPOW2, V_HBV, V_LOG2 };
@@ -313,7 +313,7 @@ static void plan(bool thorough, u64 sd)
 			for (int n = 1; n <= w + 1; ++n) block(FINDNSB, ty, (u64)n, 0, 0, all, false);
 			for (int s = 0; s <= w; ++s) { block(ROTR, ty, (u64)s, 0, 0, all, false); block(ROTL, ty, (u64)s, 0, 0, all, false); }
 			for (int first = 0; first < w; ++first) for (int cnt = 0; first + cnt <= w; ++cnt) {
-				bool pick = thorough || w == 8 || first == 0 || first == 1 || first == 7 || first == 8 || first == w - 1 || cnt == 0 || cnt == 1 || cnt == w - 1 || first + cnt == w;
+				bool pick = thorough || w == 8 || (first == 0 && cnt % 3 != 1) || first == w - 1 || (cnt == 1 && first % 4 == 3) || first + cnt == w || (first * 7 + cnt) % 11 == 0;
 				if (!pick) continue;
 				block(FILLONE, ty, (u64)first, (u64)cnt, 0, all, false); block(FILLZERO, ty, (u64)first, (u64)cnt, 0, all, false);
 			}
@@ -349,8 +349,8 @@ static void plan(bool thorough, u64 sd)
 			line(V_FILLONE, ty, x, first, cnt, 0); line(V_FILLZERO, ty, x, first, cnt, 0);
 		}
 		if (w > 16) {   // every boundary value against every small / boundary multiple and every count
-			for (u64 x : bd) for (u64 m : bd) { u64 mm = m & mmax; if (mm == 0) continue; if (mm > 40 && rnd() % 4) continue; for (int op : B2) line(op, ty, x, mm, 0, 0); }
-			for (u64 x : bd) { if (rnd() % 4) continue; for (int n = 1; n <= w + 1; ++n) line(FINDNSB, ty, x, (u64)n, 0, 0); for (int s = 1; s < w; ++s) { line(ROTR, ty, x, (u64)s, 0, 0); line(ROTL, ty, x, (u64)s, 0, 0); } }
+			for (u64 x : bd) for (u64 m : bd) { u64 mm = m & mmax; if (mm == 0) continue; if (rnd() % (thorough ? 2 : (mm > 40 ? 16 : 4))) continue; for (int op : B2) line(op, ty, x, mm, 0, 0); }
+			for (u64 x : bd) { if (rnd() % (thorough ? 2 : 16)) continue; for (int n = 1; n <= w + 1; ++n) line(FINDNSB, ty, x, (u64)n, 0, 0); for (int s = 1; s < w; ++s) { line(ROTR, ty, x, (u64)s, 0, 0); line(ROTL, ty, x, (u64)s, 0, 0); } }
 			for (int first = 0; first < w; ++first) for (int cnt = 0; first + cnt <= w; ++cnt) { if (!thorough && rnd() % 4) continue; u64 x = rnd() % 3 == 0 ? 0 : rnd() % 3 == 0 ? wm : rndw(w); line(FILLONE, ty, x, (u64)first, (u64)cnt, 0); line(FILLZERO, ty, x, (u64)first, (u64)cnt, 0); }
 		}
 	}
@@ -358,11 +358,11 @@ static void plan(bool thorough, u64 sd)
 	block(IL2X8, 10, 0, 0, 0, 65536, false);
 	for (u64 z = 0; z < 256; ++z) block(IL3X8, 10, z, 0, 0, 65536, false);
 	block(DEIL16, 10, 0, 0, 0, 65536, false);
-	{ std::vector<u64> hs = his(thorough, 384); for (u64 h : hs) { block(IL4X8, 10, h, 0, 0, 65536, false); block(IL2X16, 10, h, 0, 0, 65536, false); block(DEIL32, 10, h, 0, 0, 65536, false); } }
+	{ std::vector<u64> hs = his(thorough, 96); for (u64 h : hs) { block(IL4X8, 10, h, 0, 0, 65536, false); block(IL2X16, 10, h, 0, 0, 65536, false); block(DEIL32, 10, h, 0, 0, 65536, false); } }
 	{
 		static const int IL8[] = { IL2X8S, IL2X8V, IL3X8S, IL3X8V, IL4X8S, IL4X8V }, IL16[] = { IL2X16S, IL2X16V, IL3X16, IL3X16S, IL3X16V, IL4X16, IL4X16S, IL4X16V }, IL32[] = { IL2X32, IL2X32S, IL2X32V, IL3X32, IL3X32S, IL3X32V };
 		std::vector<u64> b8 = boundary(8), b16 = boundary(16), b32 = boundary(32), b64 = boundary(64);
-		int n = thorough ? 200000 : 6000;
+		int n = thorough ? 200000 : 4000;
 		for (int i = 0; i < n; ++i) {
 			auto pick = [&](std::vector<u64>& bd, int w) { return rnd() % 3 == 0 ? bd[rnd() % bd.size()] : rndw(w); };
 			for (int op : IL8) line(op, 10, pick(b8, 8), pick(b8, 8), pick(b8, 8), pick(b8, 8));
@@ -381,13 +381,13 @@ static void plan(bool thorough, u64 sd)
 		}
 	}
 	// ---- gtx/integer
-	{ std::vector<u64> hs = his(false, thorough ? 8192 : 256); for (u64 h : hs) block(NLZ, 10, h, 0, 0, 65536, false); }
-	{ std::vector<u64> hs = his(false, thorough ? 4096 : 48); for (u64 h : hs) { block(SQRTU, 10, h, 0, 0, 65536, false); block(SQRTS, 10, h, 0, 0, 65536, false); } }
+	{ std::vector<u64> hs = his(false, thorough ? 8192 : 64); for (u64 h : hs) block(NLZ, 10, h, 0, 0, 65536, false); }
+	{ std::vector<u64> hs = his(false, thorough ? 4096 : 28); for (u64 h : hs) { block(SQRTU, 10, h, 0, 0, 65536, false); block(SQRTS, 10, h, 0, 0, 65536, false); } }
 	{
 		std::vector<u64> b32 = boundary(32);
 		for (u64 x : b32) { line(NLZ, 10, x, 0, 0, 0); line(SQRTU, 10, x, 0, 0, 0); line(SQRTS, 10, x, 0, 0, 0); for (u64 y = 0; y <= 33; ++y) { line(POWU, 10, x, y, 0, 0); line(POWS, 10, x, y, 0, 0); } }
 		for (u64 x = 0; x <= 40; ++x) for (u64 y = 0; y <= 33; ++y) { line(POWU, 10, x, y, 0, 0); line(POWS, 10, x, y, 0, 0); line(POWS, 10, (0 - x) & 0xffffffffull, y, 0, 0); }
-		int n = thorough ? 300000 : 20000;
+		int n = thorough ? 300000 : 10000;
 		for (int i = 0; i < n; ++i) {
 			u64 x = rnd() % 3 == 0 ? b32[rnd() % b32.size()] : rndw(32), y = rnd() % 3 == 0 ? b32[rnd() % b32.size()] : rndw(32);
 			if (rnd() % 3 == 0) y = 1 + rnd() % 50;
@@ -401,7 +401,7 @@ static void plan(bool thorough, u64 sd)
 	for (int ty = 8; ty <= 9; ++ty) {
 		auto emit = [&](double x, double m) { u64 xb = ty == 8 ? f32bits((float)x) : f64bits(x), mb = ty == 8 ? f32bits((float)m) : f64bits(m); line(CEILMULF, ty, xb, mb, 0, 0); line(FLOORMULF, ty, xb, mb, 0, 0); line(ROUNDMULF, ty, xb, mb, 0, 0); };
 		for (int xi = -40; xi <= 40; ++xi) for (int mi = 1; mi <= 12; ++mi) { emit(xi, mi); emit(xi * 0.125, mi * 0.125); emit(xi * 0.5, mi * 0.25); emit(xi * 1024.0, mi * 3.0); }
-		int n = thorough ? 200000 : 20000;
+		int n = thorough ? 200000 : 10000;
 		for (int i = 0; i < n; ++i) {
 			double m = (double)(1 + rnd() % 1000) / (double)(1ull << (rnd() % 12)), x;
 			switch (rnd() % 4) { case 0: x = m * (double)((i64)(rnd() % 2001) - 1000); break;                       // exact multiples
